@@ -70,6 +70,11 @@ def check(run):
             if isinstance(st, ast.Assign) and isinstance(st.targets[0], ast.Name) \
                     and bind.name_role(st.targets[0].id) == 'PHASE' and isinstance(st.value, ast.BinOp):
                 formula = st
+        if formula is None:
+            # the correction may be written directly as the second argument of the returned CliffordMap(...)
+            for c, t, h in repo.callees(inv):
+                if h == 'name' and t[0].name == 'CliffordMap' and len(c.args) == 2 and isinstance(c.args[1], ast.BinOp):
+                    formula = ast.copy_location(ast.Assign(targets=[ast.Name(id='<phases>', ctx=ast.Store())], value=c.args[1]), c)
         if formula is None or ps_mis is None:
             run.undecided('R6.inverse', inv, 'ps_inv', 'phase correction not recognised')
         else:
@@ -84,7 +89,8 @@ def check(run):
             run.check(len(p0) == 1, 'R6.inverse', inv, formula, 'the x.z correction ps0(%s) must be subtracted' % gs_inv)
             run.check(not pos and len(neg) == 2, 'R6.inverse', inv, formula, 'unexpected phase terms %s' % (pos + neg))
             ctor = [c for c, t, h in repo.callees(inv) if h == 'name' and t[0].name == 'CliffordMap']
-            ok = len(ctor) == 1 and [norm(a) for a in ctor[0].args] == [gs_inv, norm(formula.targets[0])]
+            ok = len(ctor) == 1 and len(ctor[0].args) == 2 and norm(ctor[0].args[0]) == gs_inv \
+                and (norm(ctor[0].args[1]) == norm(formula.targets[0]) or ctor[0].args[1] is formula.value)
             run.check(ok, 'R2.inverse', inv, ctor[0] if ctor else 'return', 'inverse must return CliffordMap(%s, %s)'
                       % (gs_inv, norm(formula.targets[0])))
         # identity
